@@ -30,6 +30,10 @@ pub enum WFault {
     /// order of the JubJub prime-order subgroup and its predecessor
     SetRJub,
     SetRJubMinus1,
+    /// read the three values stored just before as (x1, y1, x2) and store y2 such that
+    /// d x1 x2 y1 y2 = +1 / -1: a pole of the twisted-Edwards addition law (the host-side sum of
+    /// the two "points" has a zero denominator)
+    Pole(bool),
 }
 
 impl WFault {
@@ -50,6 +54,7 @@ impl WFault {
             WFault::Random(_) => "witness.random",
             WFault::SetRJub => "witness.set_r_jubjub",
             WFault::SetRJubMinus1 => "witness.set_r_jubjub_minus_1",
+            WFault::Pole(_) => "witness.addition_law_pole",
         }
     }
 }
@@ -59,7 +64,8 @@ fn r_jubjub() -> Sc {
     crate::program::jub_to_bls(&(-dusk_jubjub::JubJubScalar::one())) + Sc::one()
 }
 
-pub fn apply(f: &WFault, v: Sc, prev: Sc) -> Sc {
+pub fn apply(f: &WFault, v: Sc, prevs: &[Sc; 3]) -> Sc {
+    let prev = prevs[0];
     match f {
         WFault::BitFlip(b) => {
             let mut bytes = v.to_bytes();
@@ -84,11 +90,26 @@ pub fn apply(f: &WFault, v: Sc, prev: Sc) -> Sc {
         WFault::Random(r) => *r,
         WFault::SetRJub => r_jubjub(),
         WFault::SetRJubMinus1 => r_jubjub() - Sc::one(),
+        WFault::Pole(plus) => {
+            let (x2, y1, x1) = (prevs[0], prevs[1], prevs[2]);
+            let den = dusk_jubjub::EDWARDS_D * x1 * y1 * x2;
+            match Option::<Sc>::from(den.invert()) {
+                Some(inv) => {
+                    if *plus {
+                        inv
+                    } else {
+                        -inv
+                    }
+                }
+                None => v,
+            }
+        }
     }
 }
 
 pub fn random(rng: &mut Rng) -> WFault {
-    match rng.below(16) {
+    match rng.below(18) {
+        16 | 17 => WFault::Pole(rng.chance(1, 2)),
         0 | 1 => WFault::BitFlip(rng.below(255) as u8),
         2 => WFault::AddOne,
         3 => WFault::SubOne,
@@ -110,7 +131,7 @@ pub fn random(rng: &mut Rng) -> WFault {
 /// The fixed set of eight corruption kinds used when every allocation instant
 /// of a small program is enumerated.
 pub fn enumeration_kinds() -> Vec<WFault> {
-    vec![WFault::BitFlip(0), WFault::AddOne, WFault::Double, WFault::Negate, WFault::SetZero, WFault::SetOne, WFault::Stale, WFault::SetPow2(64)]
+    vec![WFault::BitFlip(0), WFault::AddOne, WFault::Double, WFault::Negate, WFault::SetZero, WFault::SetOne, WFault::Stale, WFault::SetPow2(64), WFault::Pole(true), WFault::Pole(false)]
 }
 
 #[derive(Clone, Debug, Default)]
@@ -127,10 +148,10 @@ thread_local! {
 /// Arm the fault for the next synthesis on this thread.
 pub fn arm(k: usize, f: WFault) {
     FIRED.with(|x| *x.borrow_mut() = Fired::default());
-    let mut prev = Sc::zero();
+    let mut prevs = [Sc::zero(); 3];
     dusk_plonk::verif::set_witness_fault(Some(Box::new(move |index, value| {
         let out = if index == k {
-            let nv = apply(&f, value, prev);
+            let nv = apply(&f, value, &prevs);
             FIRED.with(|x| {
                 let mut x = x.borrow_mut();
                 x.fired = true;
@@ -141,7 +162,7 @@ pub fn arm(k: usize, f: WFault) {
             value
         };
         FIRED.with(|x| x.borrow_mut().allocations = index + 1);
-        prev = out;
+        prevs = [out, prevs[0], prevs[1]];
         out
     })));
 }
